@@ -33,6 +33,16 @@ var c36AlphaB = []string{"a", " ", "\n", "-", "+", "#", "~~~", "1", ".", ")", "(
 // itself writes (&NewLine;, &#32;), explored one token deeper.
 var c36AlphaC = []string{"a", "<a>", " ", "\n", "&NewLine;", "&#32;", "<", ">", "!", "/", "?", "-", "\\"}
 
+// Alphabet D: emphasis delimiters next to spaces, punctuation, word characters
+// and their character-reference forms (the only way to write a space right
+// inside an emphasis, or a word character right outside one that has
+// punctuation inside), explored deep enough for two emphases in a row.
+var c36AlphaD = []string{"a", " ", "*", "_", "!", "&#32;", "&#65;", "\n"}
+
+// Alphabet E: code spans with inner spaces (two spaces on each side leave one
+// in the content) and backquotes, and "!" (escaped or not) in front of links.
+var c36AlphaE = []string{"a", " ", "  ", "`", "!", "\\!", "[", "](u)", "\n", "\\"}
+
 var c36Widths = []int{0, 1, 5, 20}
 
 // c36Scan is a Codec that looks at the parse of a document: which block and
@@ -94,16 +104,44 @@ func c36ScanOf(src string, wantSig bool) *c36Scan {
 	return s
 }
 
-// c36Attr names where the parse of the formatted text first departs from the
-// parse of the original: "<what the original has>-><what the output has>".
+// c36Attr names, for a violation key, how the parse of the formatted text
+// departs from the parse of the original: the op kinds that the output has more
+// of than the original ("+OpHeading"); if there are none, the op kinds that
+// the output has fewer of ("-OpHardLineBreak"); if both have the same counts, the kind of
+// the first op that differs ("OpText-content", or "OpText-order" when the
+// sequence of kinds differs). This depends on what went wrong, not on the
+// context the construct happened to stand in.
 func c36Attr(origSrc, outSrc string) string {
 	orig, out := c36ScanOf(origSrc, true), c36ScanOf(outSrc, true)
 	kind := func(sig []string, i int) string {
 		if i >= len(sig) {
 			return "end"
 		}
-		f := strings.Fields(sig[i])
-		return f[0]
+		return strings.Fields(sig[i])[0]
+	}
+	kinds := func(sig []string) map[string]int {
+		m := map[string]int{}
+		for i := range sig {
+			m[kind(sig, i)]++
+		}
+		return m
+	}
+	ko, kf := kinds(orig.sig), kinds(out.sig)
+	diff := func(a, b map[string]int, sign string) string {
+		var ks []string
+		for k := range a {
+			if a[k] > b[k] {
+				ks = append(ks, sign+k)
+			}
+		}
+		sort.Strings(ks)
+		return strings.Join(ks, "")
+	}
+	if d := diff(kf, ko, "+"); d != "" {
+		return d
+	}
+	if d := diff(ko, kf, "-"); d != "" {
+		return d
 	}
 	n := len(orig.sig)
 	if len(out.sig) > n {
@@ -112,7 +150,7 @@ func c36Attr(origSrc, outSrc string) string {
 	for i := 0; i < n; i++ {
 		a, b := kind(orig.sig, i), kind(out.sig, i)
 		if a != b {
-			return a + "->" + b
+			return a + "-order"
 		}
 		if orig.sig[i] != out.sig[i] {
 			return a + "-content"
@@ -301,7 +339,9 @@ func TestVerifC36(t *testing.T) {
 		na := vk.Pick(c, 4, 5)
 		nb := vk.Pick(c, 4, 5)
 		nc := vk.Pick(c, 5, 6)
-		c.Rule(fmt.Sprintf("every document of <=%d tokens over the 20-token alphabet A %q every document of <=%d tokens over the 22-token alphabet B %q and every document of <=%d tokens over the 13-token alphabet C %q, length-lexicographic, each formatted with widths %v and each output formatted once more; class = (set of block op types, set of inline op types, documented-unsupported flags, which escape forms the width-0 output uses)", na, c36AlphaA, nb, c36AlphaB, nc, c36AlphaC, c36Widths))
+		nd := vk.Pick(c, 6, 7)
+		ne := vk.Pick(c, 5, 6)
+		c.Rule(fmt.Sprintf("every document of <=%d tokens over the 20-token alphabet A %q, every document of <=%d tokens over the 22-token alphabet B %q every document of <=%d tokens over the 13-token alphabet C %q, every document of <=%d tokens over the 8-token alphabet D %q and every document of <=%d tokens over the 10-token alphabet E %q, length-lexicographic, each formatted with widths %v and each output formatted once more; class = (set of block op types, set of inline op types, documented-unsupported flags, which escape forms the width-0 output uses)", na, c36AlphaA, nb, c36AlphaB, nc, c36AlphaC, nd, c36AlphaD, ne, c36AlphaE, c36Widths))
 		c.Assume("'renders to the same HTML' is observed with the package's own parser and HTMLCodec (their agreement with CommonMark is C35's subject), with md.UnescapeHTML = html.UnescapeString as in cmd/elvmdfmt",
 			"documents with nested or consecutive (strong) emphasis - decided by the harness from the parse of the document, as documented on FmtUnsupported - are not judged",
 			"line width is judged only for documents without headings, code blocks and HTML blocks, and only for lines that have a space in their content and no '<', link or code span, as in the upstream fuzz property",
@@ -319,6 +359,8 @@ func TestVerifC36(t *testing.T) {
 		run(c36AlphaA, na)
 		run(c36AlphaB, nb)
 		run(c36AlphaC, nc)
+		run(c36AlphaD, nd)
+		run(c36AlphaE, ne)
 		c.Set("not_judged_documented_unsupported", fs.unsupported.Load())
 		c.Set("width_not_judged_heading_code_html_block", fs.noWidth.Load())
 		keys := make([]string, 0, len(fs.m))
